@@ -197,3 +197,16 @@ def c14_placement(pid, v, tier):
 
 
 TEMPLATES["C14.placement"] = c14_placement
+
+
+def e2e_family(pid, v, tier):
+    """The bounded family ran the real release binary on this generated tree: the failing input is in hand and can be regenerated."""
+    ex = v.get("extra") or {}
+    if ex.get("failing_input") is None:
+        return None
+    d = ex["failing_input"]
+    return {"found": True,
+            "counterexample": {"configuration": {k: d[k] for k in d if k != "files"}, "files": d.get("files"), "what": ex.get("what"), "detail": ex.get("detail")},
+            "native_replay": {"how": "the generated project tree is written to a scratch directory and run through `breadlog --check`, `breadlog`, `breadlog --check`, `breadlog` "
+                                     "(release build of the current tree), from a foreign working directory with a private TMPDIR", "observed": ex.get("what")},
+            "replay_cmd": "python3 %s/replay/e2e_replay.py %s %s %d %d" % (os.path.dirname(os.path.dirname(os.path.abspath(__file__))), ex.get("family"), ex.get("tier"), ex.get("seed", 0), ex.get("index", 0))}
